@@ -178,8 +178,10 @@ func checkC15(c *c15Case, o *core.Obs) error {
 		if err := checkC15(&cc, o); err != nil {
 			return fmt.Errorf("blobs carved from one buffer: %v", err)
 		}
-		if !bytes.Equal(arena, pristine) {
-			return fmt.Errorf("the caller's metadata buffer was modified (first difference at byte %d of %d; blob lengths %d/%d/%d)", firstDiff(arena, pristine), len(arena), len(icc), len(exif), len(xmp))
+		// only the bytes of the blobs themselves count: what an implementation does with spare capacity behind the
+		// last blob is not something the property speaks about
+		if n := len(icc) + len(exif) + len(xmp); !bytes.Equal(arena[:n], pristine[:n]) {
+			return fmt.Errorf("a metadata blob handed to the encoder was modified in the caller's buffer (first difference at byte %d; blob lengths %d/%d/%d)", firstDiff(arena[:n], pristine[:n]), len(icc), len(exif), len(xmp))
 		}
 		o.Label("arena")
 		return nil
